@@ -18,7 +18,8 @@ META = {
 def run(ctx):
     return sworld.run_static(
         ctx, "C16", 2,
-        variants=[{"impl": "layered-basic"}, {"impl": "layered-compact", "cores": 2}, {"impl": "layered-mixed"}],
+        variants=[{"impl": "layered-basic"}, {"impl": "layered-compact", "cores": 2, "max": (20, 250)},
+                  {"impl": "layered-mixed", "max": (20, 250)}],
         sections=["lookup", "search", "each", "problems"],
         rule="every (base, upper) pair TLC enumerates for scenario 2, built three ways; distinct = (impl, base, upper)",
         max_cases=ctx.pick(500, None))
